@@ -284,6 +284,10 @@ func verifyServerExtensions(copts *compressionOptions, h http.Header) (*compress
 		return nil, fmt.Errorf("WebSocket protcol violation: unsupported extensions from server: %+v", exts[1:])
 	}
 
+	if duplicateParam(ext.params) {
+		return nil, fmt.Errorf("WebSocket protcol violation: duplicated permessage-deflate parameter from server: %q", ext.params)
+	}
+
 	_copts := *copts
 	copts = &_copts
 	// The server only gives up its context between messages if its response says so.
